@@ -209,8 +209,12 @@ void *mem_stack_for(int tid, size_t *sz);
 #define SH_LIVE 1
 #define SH_FREED 2
 
+/* target of the access the runtime is about to perform on behalf of simulated code (see the SIGSEGV handler) */
+extern volatile uintptr_t rt_acc_addr;
+
 static inline void mem_check(uintptr_t a, unsigned sz, int wr)
 {
+	rt_acc_addr = a;
 	if (a - ARENA_BASE < ARENA_SIZE) {
 		uint8_t *sh = (uint8_t *) SHADOW_BASE;
 		if (sh[(a - ARENA_BASE) >> 3] != SH_LIVE ||
